@@ -1,3 +1,3 @@
-SPECIFICATION TSpec
+SPECIFICATION TrSpec
 POSTCONDITION TraceAccepted
 CHECK_DEADLOCK FALSE
